@@ -48,7 +48,7 @@ CONFIG = {
     'min_evals': {'quick': {'c08.construct': 100000, 'c08.cast': 20000,
                             'c08.modelcheck': 10000},
                   'thorough': {'c08.construct': 1000000}},
-    'must_sig': ['construct:accepted:CTL', 'construct:accepted:LTL',
+    'must_sig': ['tree:hidden_core', 'construct:accepted:CTL', 'construct:accepted:LTL',
                  'construct:accepted:CTLS', 'construct:accepted:PL',
                  'construct:rejected:CTL', 'construct:rejected:LTL',
                  'construct:rejected:PL', 'cast:accepted', 'cast:rejected',
@@ -445,9 +445,58 @@ def drive(t, i, with_mc=True):
         LOG.sample({'tree': show(t), 'constructible_in': sorted(objs)})
 
 
+def hidden_trees():
+    """A quantified / temporal core placed where a simplifier could make it
+    vanish before membership is checked: x or not x, x and not x, x -> x,
+    true or x, false and x, x or x, not not x -- bare and under A, E, A G,
+    A X, not.  Whether the whole belongs to a logic is decided by its
+    syntax, never by its truth value."""
+    p, q, T, Fa = ('ap', 'p'), ('ap', 'q'), ('bool', True), ('bool', False)
+    cores = [('E', ('X', p)), ('A', ('F', p)), ('E', ('U', p, q)),
+             ('A', ('G', ('E', ('F', q)))), ('X', p), ('F', ('G', p)),
+             ('U', p, ('X', q)), ('E', ('F', ('G', p))),
+             ('A', ('or', ('X', p), ('G', q))), ('E', p), ('A', ('not', p)),
+             ('G', ('E', ('X', p)))]
+    hide = [lambda x: ('or', x, ('not', x)),
+            lambda x: ('or', ('not', x), x),
+            lambda x: ('and', x, ('not', x)),
+            lambda x: ('imply', x, x),
+            lambda x: ('or', T, x),
+            lambda x: ('or', x, T),
+            lambda x: ('and', Fa, x),
+            lambda x: ('and', x, Fa),
+            lambda x: ('imply', Fa, x),
+            lambda x: ('imply', x, T),
+            lambda x: ('or', x, x),
+            lambda x: ('and', x, x),
+            lambda x: ('not', ('not', x)),
+            lambda x: ('or', p, x, ('not', x)),
+            lambda x: ('and', ('not', x), q, x)]
+    outer = [lambda y: y,
+             lambda y: ('A', y),
+             lambda y: ('E', y),
+             lambda y: ('not', y),
+             lambda y: ('A', ('G', y)),
+             lambda y: ('A', ('X', y)),
+             lambda y: ('A', ('U', p, y)),
+             lambda y: ('E', ('F', y)),
+             lambda y: ('and', p, y),
+             lambda y: ('A', ('or', ('F', q), y))]
+    out = []
+    for x in cores:
+        for h in hide:
+            for o in outer:
+                out.append(o(h(x)))
+    return out
+
+
 def run(ctx):
     attach()
     r = gen.rng(ctx.seed, PROP, 'main')
+    for i, t in enumerate(hidden_trees()):
+        if ctx.mine(i):
+            LOG.sig['tree:hidden_core'] += 1
+            drive(t, 4 * i, with_mc=True)
     T2 = trees_depth(2)
     for i, t in enumerate(T2):
         if ctx.mine(i):
